@@ -291,6 +291,9 @@ pub struct GenCfg {
   /// force a redirect cycle of this length
   pub cycle: Option<usize>,
   pub allow_self_redirect: bool,
+  /// allow a module response whose final specifier names an entry that answers differently when
+  /// requested directly (an inconsistent loader); off by default
+  pub allow_inconsistent_finals: bool,
 }
 
 impl Default for GenCfg {
@@ -308,6 +311,7 @@ impl Default for GenCfg {
       chain: None,
       cycle: None,
       allow_self_redirect: false,
+      allow_inconsistent_finals: false,
     }
   }
 }
@@ -378,6 +382,7 @@ pub fn gen_world(rng: &mut Rng, cfg: &GenCfg) -> World {
     2 | 3 => GraphKind::CodeOnly,
     _ => GraphKind::TypesOnly,
   };
+  let attrs = canonical_attrs(rng, &specs);
   let mut resp = vec![];
   for i in 0..total {
     if let Some((_, r)) = forced.iter().find(|(k, _)| *k == i) {
@@ -415,7 +420,7 @@ pub fn gen_world(rng: &mut Rng, cfg: &GenCfg) -> World {
       resp.push(Resp::External(i));
       continue;
     }
-    resp.push(gen_module(rng, cfg, &specs, i));
+    resp.push(gen_module(rng, cfg, &specs, i, &attrs));
   }
   // roots: 1-3 distinct
   let mut roots = vec![];
@@ -458,6 +463,25 @@ pub fn gen_world(rng: &mut Rng, cfg: &GenCfg) -> World {
       }
     }
   }
+  // a loader that follows redirects itself answers the same module under the final specifier
+  if !cfg.allow_inconsistent_finals {
+    for i in 0..total {
+      if let Resp::Module { final_spec, .. } = &resp[i] {
+        let f = *final_spec;
+        if f != i {
+          let target = resp[f].clone();
+          match target {
+            Resp::Module { final_spec: ff, .. } if ff == f => resp[i] = target,
+            _ => {
+              if let Resp::Module { final_spec, .. } = &mut resp[i] {
+                *final_spec = i;
+              }
+            }
+          }
+        }
+      }
+    }
+  }
   let mut imports = vec![];
   if rng.chance(1, 4) {
     let referrer = ModuleSpecifier::parse("file:///w/deno.json").unwrap();
@@ -480,7 +504,22 @@ pub fn gen_world(rng: &mut Rng, cfg: &GenCfg) -> World {
   World { specs, resp, roots, imports, kind, opts }
 }
 
-fn gen_module(rng: &mut Rng, cfg: &GenCfg, specs: &[ModuleSpecifier], i: usize) -> Resp {
+/// the `type` attribute every importer uses for a target (the proviso of C01/C17/C19)
+fn canonical_attrs(rng: &mut Rng, specs: &[ModuleSpecifier]) -> Vec<Option<String>> {
+  specs
+    .iter()
+    .map(|s| {
+      let ext = ext_of(s);
+      match ext.as_str() {
+        "json" => if rng.chance(3, 4) { Some("json".to_string()) } else { None },
+        "txt" | "css" => if rng.chance(1, 2) { Some((*rng.pick(&["text", "bytes", "css"])).to_string()) } else { None },
+        _ => if rng.chance(1, 30) { Some((*rng.pick(&["json", "text", "bytes", "yaml", "bogus"])).to_string()) } else { None },
+      }
+    })
+    .collect()
+}
+
+fn gen_module(rng: &mut Rng, cfg: &GenCfg, specs: &[ModuleSpecifier], i: usize, attrs: &[Option<String>]) -> Resp {
   let total = specs.len();
   let from = &specs[i];
   let ext = ext_of(from);
@@ -536,7 +575,15 @@ fn gen_module(rng: &mut Rng, cfg: &GenCfg, specs: &[ModuleSpecifier], i: usize) 
       import_text(rng, from, &specs[t2])
     };
     let target_ext = ext_of(&specs[t]);
-    let form = match rng.below(30) {
+    let _ = &target_ext;
+    // importers agree on the target's `type` attribute, except for a deliberate minority
+    let violate = rng.chance(1, 14);
+    if let (Some(a), false) = (&attrs[t], violate) {
+      let form = if rng.chance(1, 4) { Form::DynamicWith(a.clone()) } else { Form::With(a.clone()) };
+      items.push(Item { form, text });
+      continue;
+    }
+    let form = match rng.below(if violate { 30 } else { 23 }) {
       0..=5 => Form::Namespace,
       6..=7 => Form::SideEffect,
       8..=9 => Form::ExportAll,
@@ -546,32 +593,27 @@ fn gen_module(rng: &mut Rng, cfg: &GenCfg, specs: &[ModuleSpecifier], i: usize) 
       13 => {
         if typed { Form::ExportType } else { Form::SelfTypes }
       }
-      14..=18 => Form::Dynamic,
-      19 => Form::RefPath,
-      20 => Form::RefTypes,
-      21..=22 => Form::TsTypes(text2),
-      23..=24 => {
-        if target_ext == "json" || rng.chance(1, 6) {
-          Form::With("json".into())
-        } else {
-          Form::With((*rng.pick(&["text", "bytes", "css", "yaml", "bogus"])).to_string())
-        }
-      }
-      25 => {
-        if target_ext == "json" || rng.chance(1, 4) {
-          Form::DynamicWith("json".into())
-        } else {
-          Form::DynamicWith((*rng.pick(&["text", "bytes"])).to_string())
-        }
-      }
-      26 => {
+      14..=17 => Form::Dynamic,
+      18 => Form::RefPath,
+      19 => Form::RefTypes,
+      20 => Form::TsTypes(text2),
+      21 => {
         if typed && ext != "d.ts" { Form::ImportEquals } else { Form::Namespace }
       }
+      22 => {
+        if matches!(ext.as_str(), "jsx" | "tsx") {
+          Form::JsxImportSource
+        } else if target_ext == "wasm" || rng.chance(1, 5) {
+          Form::SourcePhase
+        } else {
+          Form::SourceMap
+        }
+      }
+      23..=25 => Form::With((*rng.pick(&["json", "text", "bytes", "css", "yaml", "bogus"])).to_string()),
+      26 => Form::DynamicWith((*rng.pick(&["json", "text", "bytes"])).to_string()),
       27 => Form::SourceMap,
       28 => Form::SourcePhase,
-      _ => {
-        if matches!(ext.as_str(), "jsx" | "tsx") { Form::JsxImportSource } else { Form::Dynamic }
-      }
+      _ => Form::Dynamic,
     };
     items.push(Item { form, text });
   }
@@ -704,6 +746,31 @@ impl Loader for ScriptedLoader<'_> {
       was_dynamic_root: options.was_dynamic_root,
     });
     let r = self.respond(specifier);
+    Box::pin(async move { r })
+  }
+
+  fn ensure_cached(
+    &self,
+    specifier: &ModuleSpecifier,
+    options: LoadOptions,
+  ) -> deno_graph::source::EnsureCachedFuture {
+    if self.log.borrow().len() >= self.budget {
+      panic!("{}", NONTERMINATION_MARKER);
+    }
+    self.log.borrow_mut().push(LoadCall {
+      specifier: specifier.to_string(),
+      ensure_cached: true,
+      cache_setting: cache_setting_str(options.cache_setting),
+      checksum: options.maybe_checksum.map(|c| c.into_string()),
+      in_dynamic_branch: options.in_dynamic_branch,
+      was_dynamic_root: options.was_dynamic_root,
+    });
+    let r = self.respond(specifier).map(|v| {
+      v.map(|r| match r {
+        LoadResponse::Redirect { specifier } => deno_graph::source::CacheResponse::Redirect { specifier },
+        LoadResponse::External { .. } | LoadResponse::Module { .. } => deno_graph::source::CacheResponse::Cached,
+      })
+    });
     Box::pin(async move { r })
   }
 }
